@@ -3,6 +3,47 @@ import HexProofs.Numeric.SeriesRSI
 import HexProofs.Numeric.SeriesATR
 import HexProofs.Numeric.Stdev
 import HexProofs.Numeric.Channel
+/-!
+# STDEV and BBANDS: the whole series (closes the STDEV and BBANDS items of `C05_FULL`)
+
+`Gen.rowMajor (stdevTree …).S raw` / `Gen.rowMajor (bbTree …).S raw` are the row-major runs of the
+two trees; by `TreeSpec.engine` / `batch_iff` / `live_refines` they are what `calculate()`, the batch
+run and every append schedule return.
+
+## What the model (hexital/indicators/stdev.py, bbands.py, sma.py) really does
+* **STDEV warm-up index is `p`, not `p − 1`.**  `_calculate_reading` returns a value only when
+  `reading_period(period + 1, input)` holds, i.e. from the candle on which a value LEAVES the window.
+  On candle `p − 1` the window of `p` inputs is already full, the stored mean / variance already are
+  those of the window, but the own reading is still `None`.
+* **the data series is unrounded** (`Managed.set_reading`): `name_data = {mean, variance}` holds
+  EXACTLY the running statistics.  They start from `0`, so before the window is full they are the
+  mean / population variance of the ZERO-PADDED window (`runMean`, `runVar`: e.g. `mean₀ = x₀/p`); from
+  index `p − 1` on they are the mean and `mean((x − mean)²)` of the last `p` inputs
+  (`runMean_eq_winMean`, `runVar_eq_popVar`, via the Welford identity `welford`).  Nothing rounded is
+  fed back, so there is no error growth: own reading `= round_n(sqrt(max(var, 0)))`, the clamp is
+  inactive over an exact field (`popVar ≥ 0`), `|σ_stored − σ| ≤ ε_n`, `σ_stored ≥ 0`.
+* **BBANDS**: the helpers `name_STDEV` (+ `name_STDEV_data`) and `name_SMA` are prior sub-indicators,
+  both rounded to `defaultRound = 4` by the engine.  The SMA helper's first reading is at `p − 1`, the
+  STDEV helper's at `p`, so the own reading is the dict `{BBL: None, BBM: None, BBU: None}` (not `None`)
+  on candles `0 … p − 1` and the bands from candle `p` on.  The SMA helper is computed by its running
+  update from its STORED predecessor, so its budget grows: `(j + 2 − p)·ε₄` (`SmaOK`).  The bands are
+  `round_n(m), round_n(m ∓ 2s)` of the STORED `m`, `s`: ordered (`round` is monotone, `s ≥ 0`), middle
+  within `ε_n + (j+2−p)·ε₄`, outer bands within `ε_n + (j+4−p)·ε₄` of `SMA ∓ 2σ`.
+  The SMA helper needs `period ≥ 2` (`candles_sum` returns `None` at index 0), hence `2 ≤ p` for BBANDS.
+
+## Contents
+* textbook: `winMean` (SeriesAvg), `popVar`, `sigmaExact`, `stdevSeries`, `bbSeries`; running
+  statistics `runSum`, `runMean`, `runVar`;
+* predicates: `StdevOK` (own reading, data entry), `SdCandleOK`; `BbOK` (row of four stored values),
+  `BbOK.bands`, `BbCandleOK`;
+* theorems: `stdev_series`, `stdev_series_candles`, `stdev_series_engine`, `stdev_series_batch`,
+  `stdev_batch_readings`, `stdev_series_live`; `bb_series`, `bb_series_candles`, `bb_series_engine`,
+  `bb_series_batch`, `bb_batch_readings`, `bb_series_live`;
+* reusable: `stdev_core`, `sma_core` (one call on ANY history whose input column and previous entries
+  are known), `input_facts`, `lastReading_decoWith`, `rwCalc_inv`.
+`sqrt` is the abstract `PyF.sqrt`; `σ ≥ 0` needs `[NonnegSqrt K]`, `σ·σ = popVar` needs `[LawfulSqrt K]`
+(`sigmaExact_root`; ℝ is an instance, ℚ only of `NonnegSqrt` with a stub `sqrt`).
+-/
 set_option linter.unusedSectionVars false
 set_option linter.unusedSimpArgs false
 namespace Hex
@@ -139,8 +180,6 @@ def stdOwn (p : Nat) (x : Nat → K) (m : Nat) : Val K :=
 
 theorem Ctx.readingPeriod_some_i (x : Ctx K) (q : Int) (nm : String) :
     x.readingPeriod q nm (some x.i) = x.readingPeriod q nm := rfl
-
-theorem Ctx.reading_none_i (x : Ctx K) (nm : String) : x.reading nm = x.reading nm (some x.i) := rfl
 
 /-- **one `StandardDeviation._calculate_reading` call**, given the input column (`xs`) up to the
 active index and the data entry of the previous candle: the call stores the running statistics of
@@ -427,6 +466,818 @@ theorem stdev_series (p : Nat) (hp : 1 ≤ p) (nm input : String) (fld : Candle 
           (hQ (done.length - 1) (by omega)).1, stdData_var]
         rfl
   · exact stdevOK_mk p n hp (fieldAt fld raw) done.length
+
+/-! ### the same statement read off the candles -/
+
+/-- a stored own reading against the textbook series: `None` where the series has no value,
+otherwise a non-negative float within `ε_n` of it -/
+def StdevOwnOK (n : Nat) (o : Option K) (v : Val K) : Prop :=
+  match o with
+  | none => v = .none
+  | some e => ∃ y, v = .flt y ∧ |y - e| ≤ eps K n ∧ 0 ≤ y
+
+theorem decoSd_getD (nm : String) (raw : List (Candle K)) (rows : List (Val K × Val K))
+    (hl : rows.length = raw.length) (j : Nat) (hj : j < raw.length) :
+    (decoSd nm raw rows).getD j default = sdOut nm (raw.getD j default) (rows.getD j (.none, .none)) := by
+  rw [List.getD_eq_getElem?_getD, decoSd, decoWith_getElem? _ _ _ (.none, .none) j hl hj]; rfl
+
+/-- what `StdevOK` says of the finished candle `j` -/
+def SdCandleOK (p n : Nat) (nm : String) (x : Nat → K) (j : Nat) (c : Candle K) : Prop :=
+  StdevOwnOK n (stdevSeries p x j) (readingByCandle c nm) ∧
+  readingByCandle c (nm ++ "_data.mean") = .flt (runMean p x j) ∧
+  readingByCandle c (nm ++ "_data.variance") = .flt (runVar p x j) ∧
+  (p ≤ j + 1 → runMean p x j = winMean x p j ∧ runVar p x j = popVar x p j)
+
+theorem sdCandleOK_of [NonnegSqrt K] (p n : Nat) (hp : 1 ≤ p) (nm : String) (hn : SdNames nm) (x : Nat → K) (j : Nat)
+    (c : Candle K) (hc : Plain c) (r : Val K × Val K) (h : StdevOK p n x j r) :
+    SdCandleOK p n nm x j (sdOut nm c r) := by
+  refine ⟨?_, ?_, ?_, fun hj => ⟨runMean_eq_winMean p x j hj, runVar_eq_popVar p hp x j hj⟩⟩
+  · rw [sdOut_own nm hn _ hc]
+    unfold stdevSeries
+    by_cases hj : j < p
+    · rw [if_pos hj, h.2.1 hj]; rfl
+    · rw [if_neg hj]
+      obtain ⟨y, hy, he, hb⟩ := h.2.2 (by omega)
+      exact ⟨y, hy, hb, h.nonneg y hy⟩
+  · rw [sdOut_mean nm hn _ hc, h.1, stdData_mean]
+  · rw [sdOut_var nm hn _ hc, h.1, stdData_var]
+
+/-- **STDEV, whole series, candle by candle.**  For every raw list the row-major run of
+`stdevTree` returns; on candle `j` the own reading follows `stdevSeries` (`None` before index `p`,
+then a non-negative float within `ε_n` of `sqrt(mean((x − mean)²))` of the last `p` inputs) and the
+`<name>_data` entry holds exactly the running mean / variance, which from index `p − 1` on are the
+mean and population variance of the last `p` inputs. -/
+theorem stdev_series_candles [NonnegSqrt K] (p : Nat) (hp : 1 ≤ p) (nm input : String) (fld : Candle K → Num K)
+    (n : Nat) (hn : SdNames nm) (hin : NoDot input ∧ input ∈ Candle.attrNames)
+    (hattr : ∀ c : Candle K, c.attr input = some (.num (fld c)))
+    (raw : List (Candle K)) (hraw : ∀ c ∈ raw, Plain c) :
+    ∃ out : List (Candle K), out.length = raw.length ∧
+      Gen.rowMajor (stdevTree (F := K) nm n (p : Int) input (by omega) hin).S raw = .ok out ∧
+      ∀ j, j < raw.length → SdCandleOK p n nm (fieldAt fld raw) j (out.getD j default) := by
+  obtain ⟨rows, hl, hrun, hall⟩ := stdev_series p hp nm input fld n hn hin hattr raw hraw
+  refine ⟨decoSd nm raw rows, decoWith_length _ _ _ hl, hrun, ?_⟩
+  intro j hj
+  rw [decoSd_getD nm raw rows hl j hj]
+  exact sdCandleOK_of p n hp nm hn _ j _ (getD_plain raw hraw j hj) _ (hall j hj)
+
+/-! ### through the engine -/
+
+/-- **… through the engine**: `calculate()` on the raw candles returns exactly the candles of
+`stdev_series`. -/
+theorem stdev_series_engine (p : Nat) (hp : 1 ≤ p) (nm input : String) (fld : Candle K → Num K) (n : Nat)
+    (hn : SdNames nm) (hin : NoDot input ∧ input ∈ Candle.attrNames)
+    (hattr : ∀ c : Candle K, c.attr input = some (.num (fld c)))
+    (raw : List (Candle K)) (hraw : ∀ c ∈ raw, Plain c) :
+    ∃ rows : List (Val K × Val K), rows.length = raw.length ∧
+      engineCalc (mkTop (.stdev (p : Int) input : Kind K) nm n) raw = .ok (decoSd nm raw rows) ∧
+      ∀ j, j < raw.length → StdevOK p n (fieldAt fld raw) j (rows.getD j (.none, .none)) := by
+  obtain ⟨rows, hl, hrun, hall⟩ := stdev_series p hp nm input fld n hn hin hattr raw hraw
+  refine ⟨rows, hl, ?_, hall⟩
+  have := ((stdevTree (F := K) nm n (p : Int) input (by omega) hin).engine [] raw [] (decoSd nm raw rows) rfl
+    (by simp) hraw).2 (by simpa using hrun)
+  simpa using this
+
+/-- **… through the object**: building the indicator over the raw candles and calling
+`calculate()` once (the batch run) returns exactly the candles of `stdev_series`. -/
+theorem stdev_series_batch (p : Nat) (hp : 1 ≤ p) (nm input : String) (fld : Candle K → Num K) (n : Nat)
+    (hn : SdNames nm) (hin : NoDot input ∧ input ∈ Candle.attrNames)
+    (hattr : ∀ c : Candle K, c.attr input = some (.num (fld c)))
+    (raw : List (Candle K)) (hraw : ∀ c ∈ raw, Plain c) :
+    ∃ rows : List (Val K × Val K), rows.length = raw.length ∧
+      candlesOf (runIndicator (mkTop (.stdev (p : Int) input : Kind K) nm n) {} raw []) = .ok (decoSd nm raw rows) ∧
+      ∀ j, j < raw.length → StdevOK p n (fieldAt fld raw) j (rows.getD j (.none, .none)) := by
+  obtain ⟨rows, hl, hrun, hall⟩ := stdev_series p hp nm input fld n hn hin hattr raw hraw
+  exact ⟨rows, hl, ((stdevTree (F := K) nm n (p : Int) input (by omega) hin).batch_iff (MgrSpec.base K) raw hraw _).2 hrun,
+    hall⟩
+
+/-- **whenever the batch run returns, its candles carry exactly those readings** (and it does
+return: `stdev_series_batch`) -/
+theorem stdev_batch_readings [NonnegSqrt K] (p : Nat) (hp : 1 ≤ p) (nm input : String) (fld : Candle K → Num K)
+    (n : Nat) (hn : SdNames nm) (hin : NoDot input ∧ input ∈ Candle.attrNames)
+    (hattr : ∀ c : Candle K, c.attr input = some (.num (fld c)))
+    (raw : List (Candle K)) (hraw : ∀ c ∈ raw, Plain c) (out : List (Candle K))
+    (hout : candlesOf (runIndicator (mkTop (.stdev (p : Int) input : Kind K) nm n) {} raw []) = .ok out) :
+    out.length = raw.length ∧
+    ∀ j, j < raw.length → SdCandleOK p n nm (fieldAt fld raw) j (out.getD j default) := by
+  obtain ⟨out', h1, h2, h3⟩ := stdev_series_candles p hp nm input fld n hn hin hattr raw hraw
+  have hr : Gen.rowMajor (stdevTree (F := K) nm n (p : Int) input (by omega) hin).S raw = .ok out :=
+    ((stdevTree (F := K) nm n (p : Int) input (by omega) hin).batch_iff (MgrSpec.base K) raw hraw out).1 hout
+  rw [h2] at hr
+  cases hr
+  exact ⟨h1, h3⟩
+
+/-- **… for every append schedule**: whenever a live history (construction over `init`,
+`calculate()`, then any appends) returns, its candles are those of `stdev_series` over the whole
+stream. -/
+theorem stdev_series_live (p : Nat) (hp : 1 ≤ p) (nm input : String) (fld : Candle K → Num K) (n : Nat)
+    (hn : SdNames nm) (hin : NoDot input ∧ input ∈ Candle.attrNames)
+    (hattr : ∀ c : Candle K, c.attr input = some (.num (fld c)))
+    (init : List (Candle K)) (chunks : List (List (Candle K)))
+    (hraw : ∀ c ∈ init ++ chunks.flatten, Plain c) (snap : List (Candle K))
+    (hsnap : candlesOf (runIndicator (mkTop (.stdev (p : Int) input : Kind K) nm n) {} init chunks) = .ok snap) :
+    ∃ rows : List (Val K × Val K), rows.length = (init ++ chunks.flatten).length ∧
+      snap = decoSd nm (init ++ chunks.flatten) rows ∧
+      ∀ j, j < (init ++ chunks.flatten).length →
+        StdevOK p n (fieldAt fld (init ++ chunks.flatten)) j (rows.getD j (.none, .none)) := by
+  obtain ⟨rows, hl, hrun, hall⟩ := stdev_series p hp nm input fld n hn hin hattr _ hraw
+  have h := (stdevTree (F := K) nm n (p : Int) input (by omega) hin).live_refines (MgrSpec.base K) init chunks hraw snap hsnap
+  have h' : Gen.rowMajor (stdevTree (F := K) nm n (p : Int) input (by omega) hin).S (init ++ chunks.flatten) = .ok snap := h
+  rw [hrun] at h'
+  exact ⟨rows, hl, (Except.ok.inj h').symm, hall⟩
+
+/-! ### non-vacuity: the five demo candles of HexProps/C04.lean over ℚ (closes 11, 12, 14, 15, 15) -/
+
+theorem sdNames_demo : SdNames "STDEV_3" := ⟨by decide, by decide, ⟨by decide, by decide, by decide⟩⟩
+
+example : ∃ rows : List (Val ℚ × Val ℚ), rows.length = rsiDemoRaw.length ∧
+    Gen.rowMajor (stdevTree (F := ℚ) "STDEV_3" 4 ((3 : Nat) : Int) "close" (by omega) ⟨noDot_close, by decide⟩).S
+      rsiDemoRaw = .ok (decoSd "STDEV_3" rsiDemoRaw rows) ∧
+    ∀ j, j < rsiDemoRaw.length → StdevOK 3 4 (fieldAt (·.c) rsiDemoRaw) j (rows.getD j (.none, .none)) :=
+  stdev_series 3 (by norm_num) "STDEV_3" "close" (·.c) 4 sdNames_demo ⟨noDot_close, by decide⟩
+    (fun _ => rfl) rsiDemoRaw rsiDemoRaw_plain
+
+/-- the batch run on the demo candles returns, and its candles are as stated -/
+example : ∃ out : List (Candle ℚ),
+    candlesOf (runIndicator (mkTop (.stdev ((3 : Nat) : Int) "close" : Kind ℚ) "STDEV_3" 4) {} rsiDemoRaw []) = .ok out ∧
+    out.length = rsiDemoRaw.length ∧
+    ∀ j, j < rsiDemoRaw.length → SdCandleOK 3 4 "STDEV_3" (fieldAt (·.c) rsiDemoRaw) j (out.getD j default) := by
+  obtain ⟨rows, _, h2, _⟩ := stdev_series_batch 3 (by norm_num) "STDEV_3" "close" (·.c) 4 sdNames_demo
+    ⟨noDot_close, by decide⟩ (fun _ => rfl) rsiDemoRaw rsiDemoRaw_plain
+  exact ⟨_, h2, stdev_batch_readings 3 (by norm_num) "STDEV_3" "close" (·.c) 4 sdNames_demo
+    ⟨noDot_close, by decide⟩ (fun _ => rfl) rsiDemoRaw rsiDemoRaw_plain _ h2⟩
+
+/-- the textbook quantities on the demo candles (period 3): no reading on candles 0–2; on candle 4
+the window is 14, 15, 15: mean `44/3`, population variance `2/9` (ℚ has no square roots: its
+`PyF.sqrt` is a stub, the ℝ instance of `RealInst.lean` has the real one) -/
+example : stdevSeries 3 (fieldAt (·.c) rsiDemoRaw) 2 = none := by decide
+example : runMean 3 (fieldAt (·.c) rsiDemoRaw) 4 = 44 / 3 := by
+  norm_num [runMean, runSum, rsum, fieldAt, rsiDemoRaw, Demo.mk, List.range_succ]
+example : runVar 3 (fieldAt (·.c) rsiDemoRaw) 4 = 2 / 9 := by
+  norm_num [runVar, runMean, runSum, rsum, fieldAt, rsiDemoRaw, Demo.mk, List.range_succ]
+example : popVar (fieldAt (·.c) rsiDemoRaw) 3 4 = 2 / 9 := by
+  norm_num [popVar, winMean, rsum, fieldAt, rsiDemoRaw, Demo.mk, List.range_succ]
+/-- before the window is full the statistics are those of the zero-padded window: on candle 1 the
+stored mean is `(11 + 12)/3` -/
+example : runMean 3 (fieldAt (·.c) rsiDemoRaw) 1 = 23 / 3 := by
+  norm_num [runMean, runSum, rsum, fieldAt, rsiDemoRaw, Demo.mk, List.range_succ]
+
+/-- concretely: the batch run stores no reading on candle 2, and on candle 4 the data entry is
+`{mean: 44/3, variance: 2/9}` -/
+example : ∃ out : List (Candle ℚ),
+    candlesOf (runIndicator (mkTop (.stdev ((3 : Nat) : Int) "close" : Kind ℚ) "STDEV_3" 4) {} rsiDemoRaw []) = .ok out ∧
+    readingByCandle (out.getD 2 default) "STDEV_3" = .none ∧
+    readingByCandle (out.getD 4 default) ("STDEV_3" ++ "_data.mean") = .flt (44 / 3) ∧
+    readingByCandle (out.getD 4 default) ("STDEV_3" ++ "_data.variance") = .flt (2 / 9) := by
+  obtain ⟨rows, _, h2, _⟩ := stdev_series_batch 3 (by norm_num) "STDEV_3" "close" (·.c) 4 sdNames_demo
+    ⟨noDot_close, by decide⟩ (fun _ => rfl) rsiDemoRaw rsiDemoRaw_plain
+  obtain ⟨_, h3⟩ := stdev_batch_readings 3 (by norm_num) "STDEV_3" "close" (·.c) 4 sdNames_demo
+    ⟨noDot_close, by decide⟩ (fun _ => rfl) rsiDemoRaw rsiDemoRaw_plain _ h2
+  refine ⟨_, h2, ?_, ?_, ?_⟩
+  · have h := (h3 2 (by decide)).1
+    have e : stdevSeries 3 (fieldAt (·.c) rsiDemoRaw) 2 = none := by decide
+    rw [e] at h
+    exact h
+  · rw [(h3 4 (by decide)).2.1]
+    norm_num [runMean, runSum, rsum, fieldAt, rsiDemoRaw, Demo.mk, List.range_succ]
+  · rw [(h3 4 (by decide)).2.2.1]
+    norm_num [runVar, runMean, runSum, rsum, fieldAt, rsiDemoRaw, Demo.mk, List.range_succ]
+
+#print axioms stdev_series
+#print axioms stdev_series_candles
+#print axioms stdev_series_engine
+#print axioms stdev_series_batch
+#print axioms stdev_batch_readings
+#print axioms stdev_series_live
+
+/-! ## BBANDS (prior STDEV helper with its data series, prior SMA helper, read-only own reading) -/
+
+/-- **one `SMA._calculate_reading` call** on a history whose input column and previous own reading
+are known (the step of `sma_series`, freed from the shape of the candles) -/
+theorem sma_core (p : Nat) (hp : 2 ≤ p) (nm input : String) (n : Nat) (xs : Nat → Num K)
+    (H : List (Candle K)) (c : Candle K)
+    (hfield : ∀ j : Nat, j ≤ H.length →
+      ({ cs := H ++ [c], i := H.length, name := nm } : Ctx K).reading input (some (j : Int)) = .ok (.num (xs j)))
+    (hper : ({ cs := H ++ [c], i := H.length, name := nm } : Ctx K).readingPeriod (p : Int) input
+      = decide (p ≤ H.length + 1))
+    (hQ : if H.length = 0 then Ctx.lastReading nm H = .none
+      else SmaOK p n (fun j => (xs j).toF) (H.length - 1) (Ctx.lastReading nm H)) :
+    ∃ v, Calc.sma { cs := H ++ [c], i := H.length, name := nm } (p : Int) input = .ok v ∧
+      SmaOK p n (fun j => (xs j).toF) H.length (v.roundBy n) := by
+  have hpK : ((p : Int) : K) ≠ 0 := by
+    have : (p : K) ≠ 0 := by exact_mod_cast (by omega : p ≠ 0)
+    simpa using this
+  have hprev := Ctx.prevReading_append_cons H c [] nm nm
+  have hcur : ({ cs := H ++ [c], i := H.length, name := nm } : Ctx K).reading input = .ok (.num (xs H.length)) :=
+    hfield H.length (le_refl _)
+  by_cases h1 : H.length + 1 < p
+  · -- warm-up
+    have hpn : ({ cs := H ++ [c], i := H.length, name := nm } : Ctx K).prevReading nm = .ok .none := by
+      rw [hprev]
+      by_cases h0 : H.length = 0
+      · rw [if_pos h0] at hQ; rw [hQ]
+      · rw [if_neg h0] at hQ; rw [hQ.1 (by omega)]
+    have hrp : ({ cs := H ++ [c], i := H.length, name := nm } : Ctx K).readingPeriod (p : Int) input = false := by
+      rw [hper]; simp; omega
+    exact ⟨.none, sma_none _ p input hpn hrp, fun _ => rfl, fun h => by omega⟩
+  · have h0 : H.length ≠ 0 := by omega
+    rw [if_neg h0] at hQ
+    by_cases h2 : H.length + 1 = p
+    · -- seed
+      have hpn : ({ cs := H ++ [c], i := H.length, name := nm } : Ctx K).prevReading nm = .ok .none := by
+        rw [hprev, hQ.1 (by omega)]
+      have hrp : ({ cs := H ++ [c], i := H.length, name := nm } : Ctx K).readingPeriod (p : Int) input = true := by
+        rw [hper]; simp; omega
+      have hwin := sma_seed_window ({ cs := H ++ [c], i := H.length, name := nm } : Ctx K) p input
+        (fun j => xs (H.length + 1 - p + j))
+        hpn hrp (by omega) (by show (p : Int) ≤ (H.length : Int) + 1; omega) (by show (1 : Int) ≤ (H.length : Int); omega)
+        (by
+          intro j hj
+          have e : ({ cs := H ++ [c], i := H.length, name := nm } : Ctx K).i + 1 - (p : Int) + (j : Int)
+              = ((H.length + 1 - p + j : Nat) : Int) := by
+            show (H.length : Int) + 1 - (p : Int) + (j : Int) = _; omega
+          rw [e]
+          exact hfield _ (by omega))
+      refine ⟨_, hwin, fun h => by omega, fun _ => ⟨_, rfl, ?_⟩⟩
+      have e : ((H.length + 2 - p : Nat) : K) = 1 := by
+        have : H.length + 2 - p = 1 := by omega
+        rw [this]; simp
+      rw [e, one_mul]
+      exact LawfulPyF.round_err n _
+    · -- running update
+      have h3 : p ≤ H.length := by omega
+      obtain ⟨yp, hyp, hbound⟩ := hQ.2 (by omega)
+      have hpn : ({ cs := H ++ [c], i := H.length, name := nm } : Ctx K).prevReading nm = .ok (.flt yp) := by
+        rw [hprev, hyp]
+      have hold : ({ cs := H ++ [c], i := H.length, name := nm } : Ctx K).reading input
+          (some (({ cs := H ++ [c], i := H.length, name := nm } : Ctx K).i - (p : Int)))
+          = .ok (.num (xs (H.length - p))) := by
+        have e : ({ cs := H ++ [c], i := H.length, name := nm } : Ctx K).i - (p : Int) = ((H.length - p : Nat) : Int) := by
+          show (H.length : Int) - (p : Int) = _; omega
+        rw [e]
+        exact hfield _ (by omega)
+      refine ⟨_, sma_rec_flt _ p input yp _ _ hpn hold hcur hpK, fun h => by omega, fun _ => ⟨_, rfl, ?_⟩⟩
+      rw [winMean_step (fun j => (xs j).toF) p H.length (by omega) h3]
+      have hb := sma_error_budget n ((p : Int) : K) ((xs (H.length - p)).toF) ((xs H.length).toF) yp
+        (winMean (fun j => (xs j).toF) p (H.length - 1)) _ hbound
+      have e : ((H.length + 2 - p : Nat) : K) * eps K n = ((H.length - 1 + 2 - p : Nat) : K) * eps K n + eps K n := by
+        have : H.length + 2 - p = (H.length - 1 + 2 - p) + 1 := by omega
+        rw [this]; push_cast; ring
+      rw [e]
+      simpa using hb
+
+/-- read, store, finish: from the result of the whole reading function back to its reading part -/
+theorem rwCalc_inv (D : String) (R : Ctx K → PyM (Option (Val K) × PyM (Val K))) (name : String)
+    (H : List (Candle K)) (c : Candle K) (hsub : dlookup D c.subs = none) (v dv : Val K)
+    (h : rwCalc D R name (H ++ [c]) H.length = .ok (v, H ++ [setKey true D dv c])) :
+    ∃ fin, R { cs := H ++ [c], i := H.length, name := name } = .ok (some dv, fin) ∧ fin = .ok v := by
+  unfold rwCalc at h
+  cases hR : R { cs := H ++ [c], i := H.length, name := name } with
+  | error e => rw [hR] at h; cases h
+  | ok r =>
+    obtain ⟨d, fin⟩ := r
+    rw [hR] at h
+    cases d with
+    | none =>
+      cases fin with
+      | error e => cases h
+      | ok v' =>
+        simp only [bind, Except.bind, pure, Except.pure, Except.ok.injEq, Prod.mk.injEq] at h
+        have hc : c = setKey true D dv c := by
+          have := List.append_cancel_left h.2
+          simpa using this
+        have : dlookup D c.subs = some dv := by
+          rw [hc]; simp [setKey, dlookup_dset_self]
+        rw [hsub] at this; cases this
+    | some dv' =>
+      simp only [bind, Except.bind, pure, Except.pure, setReading_eq, updateAt_append_cons] at h
+      cases fin with
+      | error e => cases h
+      | ok v' =>
+        simp only [Except.ok.injEq, Prod.mk.injEq] at h
+        have hc : setKey true D dv' c = setKey true D dv c := by
+          have := List.append_cancel_left h.2
+          simpa using this
+        have : dlookup D (setKey true D dv' c).subs = dlookup D (setKey true D dv c).subs := by rw [hc]
+        simp [setKey, dlookup_dset_self] at this
+        subst this
+        exact ⟨_, rfl, by rw [h.1]⟩
+
+/-- what the pieces of a BBANDS tree store on one candle: the STDEV helper's reading and data
+entry, the SMA helper's reading, the own reading (a dict) -/
+structure BbRow (K : Type) where
+  sd : Val K
+  dv : Val K
+  sm : Val K
+  bb : Val K
+
+def BbRow.dflt : BbRow K := ⟨.none, .none, .none, .none⟩
+
+/-- the candle after the STDEV helper ran -/
+def bbC1 (nm : String) (sd dv : Val K) (c : Candle K) : Candle K :=
+  setKey true (nm ++ "_STDEV") sd (setKey true (nm ++ "_STDEV" ++ "_data") dv c)
+/-- … and after the SMA helper ran -/
+def bbC2 (nm : String) (sd dv sm : Val K) (c : Candle K) : Candle K :=
+  setKey true (nm ++ "_SMA") sm (bbC1 nm sd dv c)
+/-- a finished BBANDS candle -/
+def bbOut (nm : String) (c : Candle K) (r : BbRow K) : Candle K :=
+  setKey false nm r.bb (bbC2 nm r.sd r.dv r.sm c)
+
+/-- the row step of `bbTree`: STDEV helper (reading part, data entry stored, own reading rounded to
+4 decimals and stored), SMA helper, own reading – each stored before the next one runs -/
+theorem bb_rowStep_ok (nm : String) (n : Nat) (p : Int) (input : String) (hp : 1 ≤ p)
+    (hn : BbNames nm) (hin : NoDot input ∧ input ∈ Candle.attrNames) (done : List (Candle K)) (c : Candle K)
+    (dv v vm vb : Val K) (fin : PyM (Val K))
+    (hX : stdevR p input { cs := done ++ [c], i := done.length, name := nm ++ "_STDEV" } = .ok (some dv, fin))
+    (hfin : fin = .ok v)
+    (hM : Calc.sma { cs := done ++ [bbC1 nm (v.roundBy defaultRound) dv c], i := done.length, name := nm ++ "_SMA" }
+      p input = .ok vm)
+    (hP : Calc.bbands { cs := done ++ [bbC2 nm (v.roundBy defaultRound) dv (vm.roundBy defaultRound) c],
+                        i := done.length, name := nm } (nm ++ "_SMA") (nm ++ "_STDEV") = .ok vb) :
+    Gen.rowStep (bbTree (F := K) nm n p input hp hn hin).S done c
+      = .ok (done ++ [bbOut nm c ⟨v.roundBy defaultRound, dv, vm.roundBy defaultRound, vb.roundBy n⟩]) := by
+  show Gen.rowStep (TComp.spec (bbComp nm n p input hp hn hin) _) done c = _
+  rw [TComp.rowStep_spec]
+  show (do
+      let z ← (do
+        let x ← (do
+          let r ← stdevR p input { cs := done ++ [c], i := done.length, name := nm ++ "_STDEV" }
+          let v ← r.2
+          pure (r.1, v))
+        let q ← (do
+          let m ← Calc.sma { cs := done ++ [outDS true (nm ++ "_STDEV") (nm ++ "_STDEV" ++ "_data")
+                                (x.2.roundBy defaultRound) x.1 c],
+                             i := done.length, name := nm ++ "_SMA" } p input
+          let b ← Calc.bbands { cs := done ++ [setKey true (nm ++ "_SMA") (m.roundBy defaultRound)
+                                  (outDS true (nm ++ "_STDEV") (nm ++ "_STDEV" ++ "_data") (x.2.roundBy defaultRound) x.1 c)],
+                                i := done.length, name := nm } (nm ++ "_SMA") (nm ++ "_STDEV")
+          pure (m, b))
+        pure (x, q))
+      pure (done ++ [setKey false nm (z.2.2.roundBy n) (setKey true (nm ++ "_SMA") (z.2.1.roundBy defaultRound)
+        (outDS true (nm ++ "_STDEV") (nm ++ "_STDEV" ++ "_data") (z.1.2.roundBy defaultRound) z.1.1 c))])) = _
+  rw [hX, hfin]
+  simp only [pym_bind_ok, pym_pure]
+  have e1 : outDS true (nm ++ "_STDEV") (nm ++ "_STDEV" ++ "_data") (v.roundBy defaultRound) (some dv) c
+      = bbC1 nm (v.roundBy defaultRound) dv c := rfl
+  rw [e1, hM]
+  simp only [pym_bind_ok, pym_pure]
+  have e2 : setKey true (nm ++ "_SMA") (vm.roundBy defaultRound) (bbC1 nm (v.roundBy defaultRound) dv c)
+      = bbC2 nm (v.roundBy defaultRound) dv (vm.roundBy defaultRound) c := rfl
+  rw [e2, hP]
+  rfl
+
+/-! ### reading the (partly) finished BBANDS candles -/
+
+section bbout
+variable (nm : String)
+
+theorem bbC1_input (input : String) (hin : NoDot input ∧ input ∈ Candle.attrNames) (sd dv : Val K) (c : Candle K) :
+    readingByCandle (bbC1 nm sd dv c) input = readingByCandle c input := by
+  unfold bbC1
+  rw [indep_attr (F := K) _ input hin.1 hin.2, indep_attr (F := K) _ input hin.1 hin.2]
+
+theorem bbOut_input (input : String) (hin : NoDot input ∧ input ∈ Candle.attrNames) (c : Candle K)
+    (r : BbRow K) : readingByCandle (bbOut nm c r) input = readingByCandle c input := by
+  unfold bbOut bbC2
+  rw [indep_attr (F := K) _ input hin.1 hin.2, indep_attr (F := K) _ input hin.1 hin.2, bbC1_input nm input hin]
+
+theorem bbC2_sm (hn : BbNames nm) (sd dv sm : Val K) (c : Candle K) (hc : Plain c) :
+    readingByCandle (bbC2 nm sd dv sm c) (nm ++ "_SMA") = sm := by
+  rw [readingByCandle_key _ hn.kM]
+  obtain ⟨hi, hs⟩ := hc
+  simp [bbC2, bbC1, lookupKey, setKey, hi, hs, dset, dlookup, hn.nS, hn.nS.symm, hn.nD, hn.nD.symm, hn.nM, hn.nM.symm, hn.SM, hn.SM.symm,
+    hn.sn.ne, hn.sn.ne.symm, hn.DM, hn.DM.symm]
+
+theorem bbC2_sd (hn : BbNames nm) (sd dv sm : Val K) (c : Candle K) (hc : Plain c) :
+    readingByCandle (bbC2 nm sd dv sm c) (nm ++ "_STDEV") = sd := by
+  rw [readingByCandle_key _ hn.kS]
+  obtain ⟨hi, hs⟩ := hc
+  simp [bbC2, bbC1, lookupKey, setKey, hi, hs, dset, dlookup, hn.SM, hn.SM.symm, hn.sn.ne, hn.sn.ne.symm,
+    hn.DM, hn.DM.symm]
+
+theorem bbOut_own (hk : IsKey nm) (c : Candle K) (r : BbRow K) :
+    readingByCandle (bbOut nm c r) nm = r.bb := readingByCandle_setKey_own nm hk _ _
+
+theorem bbOut_sm (hn : BbNames nm) (c : Candle K) (hc : Plain c) (r : BbRow K) :
+    readingByCandle (bbOut nm c r) (nm ++ "_SMA") = r.sm := by
+  rw [readingByCandle_key _ hn.kM]
+  obtain ⟨hi, hs⟩ := hc
+  simp [bbOut, bbC2, bbC1, lookupKey, setKey, hi, hs, dset, dlookup, hn.nS, hn.nS.symm, hn.nD, hn.nD.symm, hn.nM, hn.nM.symm, hn.SM, hn.SM.symm,
+    hn.sn.ne, hn.sn.ne.symm, hn.DM, hn.DM.symm]
+
+theorem bbOut_sd (hn : BbNames nm) (c : Candle K) (hc : Plain c) (r : BbRow K) :
+    readingByCandle (bbOut nm c r) (nm ++ "_STDEV") = r.sd := by
+  rw [readingByCandle_key _ hn.kS]
+  obtain ⟨hi, hs⟩ := hc
+  simp [bbOut, bbC2, bbC1, lookupKey, setKey, hi, hs, dset, dlookup, hn.nS, hn.nS.symm, hn.SM, hn.SM.symm,
+    hn.sn.ne, hn.sn.ne.symm, hn.DM, hn.DM.symm]
+
+theorem bbOut_mean (hn : BbNames nm) (c : Candle K) (hc : Plain c) (r : BbRow K) :
+    readingByCandle (bbOut nm c r) (nm ++ "_STDEV" ++ "_data.mean") = r.dv.nested "mean" := by
+  unfold readingByCandle
+  rw [hn.sn.mean]
+  obtain ⟨hi, hs⟩ := hc
+  simp [bbOut, bbC2, bbC1, setKey, hi, hs, dset, dlookup, hn.nD, hn.nD.symm, hn.SM, hn.SM.symm,
+    hn.sn.ne, hn.sn.ne.symm, hn.DM, hn.DM.symm]
+
+theorem bbOut_var (hn : BbNames nm) (c : Candle K) (hc : Plain c) (r : BbRow K) :
+    readingByCandle (bbOut nm c r) (nm ++ "_STDEV" ++ "_data.variance") = r.dv.nested "variance" := by
+  unfold readingByCandle
+  rw [hn.sn.var]
+  obtain ⟨hi, hs⟩ := hc
+  simp [bbOut, bbC2, bbC1, setKey, hi, hs, dset, dlookup, hn.nD, hn.nD.symm, hn.SM, hn.SM.symm,
+    hn.sn.ne, hn.sn.ne.symm, hn.DM, hn.DM.symm]
+
+end bbout
+
+/-! ### the textbook bands and the predicate -/
+
+/-- the own reading before both helpers have a value -/
+def bbNoneDict : Val K := .dict [("BBL", .none), ("BBM", .none), ("BBU", .none)]
+/-- the own reading: lower, middle, upper band -/
+def bbDict (lo mid up : K) : Val K :=
+  .dict [("BBL", .num (.flt lo)), ("BBM", .num (.flt mid)), ("BBU", .num (.flt up))]
+
+theorem bbNoneDict_round (n : Nat) : (bbNoneDict : Val K).roundBy n = bbNoneDict := rfl
+
+theorem bbDict_round (n : Nat) (ym ys : K) :
+    (Val.dict [("BBL", .num ((Num.flt ym).sub ((Num.flt ys).mul (fl 2)))), ("BBM", .num (Num.flt ym)),
+      ("BBU", .num ((Num.flt ym).add ((Num.flt ys).mul (fl 2))))] : Val K).roundBy n
+      = bbDict (PyF.round n (ym - 2 * ys)) (PyF.round n ym) (PyF.round n (ym + 2 * ys)) := by
+  have e : (fl 2 : Num K).toF = 2 := by rw [Num.toF_fl]; norm_num
+  simp [Val.roundBy, Scalar.roundBy, Num.roundBy, Num.sub, Num.add, Num.mul, bbDict, LawfulPyF.sub_eq,
+    LawfulPyF.add_eq, LawfulPyF.mul_eq, e, mul_comm]
+
+/-- the textbook Bollinger bands of the raw inputs: nothing before index `p` (the STDEV helper's
+warm-up), then `(SMA − 2σ, SMA, SMA + 2σ)` of the last `p` inputs -/
+def bbSeries (p : Nat) (x : Nat → K) (j : Nat) : Option (K × K × K) :=
+  if j < p then none
+  else some (winMean x p j - 2 * sigmaExact x p j, winMean x p j, winMean x p j + 2 * sigmaExact x p j)
+
+/-- what the whole-series theorem says of candle `j`:
+* the STDEV helper's pair (reading rounded to 4 decimals, exact data entry) is `StdevOK`;
+* the SMA helper's reading (rounded to 4 decimals, computed by the running update from its STORED
+  predecessor) is `SmaOK`: `None` before index `p − 1`, then within `(j + 2 − p)·ε₄` of the window mean;
+* the own reading is the dict of `None`s before index `p` and afterwards
+  `{BBL: round_n(m − 2s), BBM: round_n(m), BBU: round_n(m + 2s)}` built from the STORED helper
+  readings `m`, `s`. -/
+def BbOK (p n : Nat) (x : Nat → K) (j : Nat) (r : BbRow K) : Prop :=
+  StdevOK p defaultRound x j (r.sd, r.dv) ∧
+  SmaOK p defaultRound x j r.sm ∧
+  (j < p → r.bb = bbNoneDict) ∧
+  (p ≤ j → ∃ ym ys, r.sm = .flt ym ∧ r.sd = .flt ys ∧
+    r.bb = bbDict (PyF.round n (ym - 2 * ys)) (PyF.round n ym) (PyF.round n (ym + 2 * ys)))
+
+theorem round_close (n : Nat) (a A e : K) (h : |a - A| ≤ e) : |PyF.round n a - A| ≤ eps K n + e := by
+  calc |PyF.round n a - A| = |(PyF.round n a - a) + (a - A)| := by ring_nf
+    _ ≤ _ := abs_add_le _ _
+    _ ≤ _ := add_le_add (LawfulPyF.round_err n a) h
+
+/-- **the bands**: from index `p` on the own reading is a dict of three floats with
+`lower ≤ middle ≤ upper`, the middle band within `ε_n + (j + 2 − p)·ε₄` of the mean of the last `p`
+inputs and the outer bands within `ε_n + (j + 4 − p)·ε₄` of `mean ∓ 2σ` (`ε₄`: both helpers are
+stored rounded to 4 decimals; the SMA helper's own budget grows with its running update). -/
+theorem BbOK.bands [NonnegSqrt K] {p n : Nat} {x : Nat → K} {j : Nat} {r : BbRow K} (h : BbOK p n x j r)
+    (hj : p ≤ j) :
+    ∃ lo mid up : K, r.bb = bbDict lo mid up ∧ lo ≤ mid ∧ mid ≤ up ∧
+      |mid - winMean x p j| ≤ eps K n + ((j + 2 - p : Nat) : K) * eps K defaultRound ∧
+      |lo - (winMean x p j - 2 * sigmaExact x p j)| ≤ eps K n + (((j + 2 - p : Nat) : K) + 2) * eps K defaultRound ∧
+      |up - (winMean x p j + 2 * sigmaExact x p j)| ≤ eps K n + (((j + 2 - p : Nat) : K) + 2) * eps K defaultRound := by
+  obtain ⟨hsd, hsm, _, hb⟩ := h
+  obtain ⟨ym, ys, hm, hs, hbb⟩ := hb hj
+  have hys : 0 ≤ ys := hsd.nonneg ys hs
+  obtain ⟨ys', hs', _, hse⟩ := hsd.2.2 hj
+  have : ys' = ys := by
+    have h1 : (Val.flt ys' : Val K) = .flt ys := hs'.symm.trans hs
+    injection h1 with h1; injection h1 with h1; injection h1
+  subst this
+  obtain ⟨ym', hm', hme⟩ := hsm.2 (by omega)
+  have : ym' = ym := by
+    have h1 : (Val.flt ym' : Val K) = .flt ym := hm'.symm.trans hm
+    injection h1 with h1; injection h1 with h1; injection h1
+  subst this
+  refine ⟨_, _, _, hbb, LawfulPyF.round_mono n (by linarith), LawfulPyF.round_mono n (by linarith),
+    round_close n _ _ _ hme, ?_, ?_⟩
+  · apply round_close
+    have e : ym' - 2 * ys' - (winMean x p j - 2 * sigmaExact x p j)
+        = (ym' - winMean x p j) - 2 * (ys' - sigmaExact x p j) := by ring
+    rw [e]
+    calc |(ym' - winMean x p j) - 2 * (ys' - sigmaExact x p j)|
+        ≤ |ym' - winMean x p j| + |2 * (ys' - sigmaExact x p j)| := abs_sub _ _
+      _ = |ym' - winMean x p j| + 2 * |ys' - sigmaExact x p j| := by rw [abs_mul]; norm_num
+      _ ≤ _ := by nlinarith [hme, hse]
+  · apply round_close
+    have e : ym' + 2 * ys' - (winMean x p j + 2 * sigmaExact x p j)
+        = (ym' - winMean x p j) + 2 * (ys' - sigmaExact x p j) := by ring
+    rw [e]
+    calc |(ym' - winMean x p j) + 2 * (ys' - sigmaExact x p j)|
+        ≤ |ym' - winMean x p j| + |2 * (ys' - sigmaExact x p j)| := abs_add_le _ _
+      _ = |ym' - winMean x p j| + 2 * |ys' - sigmaExact x p j| := by rw [abs_mul]; norm_num
+      _ ≤ _ := by nlinarith [hme, hse]
+
+/-! ### one row of the BBANDS tree, the whole series -/
+
+/-- the candles of a BBANDS run -/
+def decoBb (nm : String) (raw : List (Candle K)) (rows : List (BbRow K)) : List (Candle K) :=
+  decoWith (bbOut nm) raw rows
+
+/-- **one row**: if all earlier rows are as claimed, the row step at index `m` returns and stores a
+row as claimed -/
+theorem bb_step (p : Nat) (hp : 2 ≤ p) (nm input : String) (fld : Candle K → Num K) (n : Nat)
+    (hn : BbNames nm) (hin : NoDot input ∧ input ∈ Candle.attrNames)
+    (hattr : ∀ c : Candle K, c.attr input = some (.num (fld c)))
+    (raw : List (Candle K)) (hraw : ∀ c ∈ raw, Plain c)
+    (m : Nat) (hm : m < raw.length) (rows : List (BbRow K)) (hrows : rows.length = m)
+    (hQ : ∀ j, j < m → BbOK p n (fieldAt fld raw) j (rows.getD j BbRow.dflt)) :
+    ∃ r, Gen.rowStep (bbTree (F := K) nm n (p : Int) input (by omega) hn hin).S
+          (decoWith (bbOut nm) (raw.take m) rows) (raw.getD m default)
+        = .ok (decoWith (bbOut nm) (raw.take m) rows ++ [bbOut nm (raw.getD m default) r]) ∧
+      BbOK p n (fieldAt fld raw) m r := by
+  have htl : (raw.take m).length = m := by simp; omega
+  have hdl : (decoWith (bbOut nm) (raw.take m) rows).length = m := by
+    rw [decoWith_length _ _ _ (by rw [htl, hrows]), htl]
+  have hc : Plain (raw.getD m default) := getD_plain raw hraw m hm
+  have hlast := lastReading_decoWith (bbOut nm) BbRow.dflt raw m (by omega) rows hrows
+  -- the input column as each piece sees it
+  obtain ⟨hfS, hpS⟩ := input_facts (bbOut nm) input hin fld hattr (fun c r => bbOut_input nm input hin c r)
+    raw m hm rows hrows _ rfl (raw.getD m default) rfl (nm ++ "_STDEV")
+  have hfM := fun sd dv => input_facts (bbOut nm) input hin fld hattr (fun c r => bbOut_input nm input hin c r)
+    raw m hm rows hrows _ rfl (bbC1 nm sd dv (raw.getD m default)) (bbC1_input nm input hin sd dv _) (nm ++ "_SMA")
+  generalize hdone : decoWith (bbOut nm) (raw.take m) rows = done at hdl hfS hpS hfM hlast ⊢
+  subst hdl
+  -- (1) the STDEV helper
+  have hcore := stdev_core p (by omega) (nm ++ "_STDEV") input (nm ++ "_STDEV" ++ "_data")
+    (fun j => fld (raw.getD j default)) done (raw.getD done.length default) hfS
+    (by
+      have := hpS (p + 1) (by omega)
+      rw [show ((p + 1 : Nat) : Int) = (p : Int) + 1 by push_cast; rfl] at this
+      exact this)
+    (by
+      by_cases h0 : done.length = 0
+      · rw [if_pos h0, List.eq_nil_of_length_eq_zero h0]; rfl
+      · have hd : (rows.getD (done.length - 1) BbRow.dflt).dv = stdData _ _ := (hQ (done.length - 1) (by omega)).1.1
+        rw [if_neg h0, hlast (by omega), bbOut_mean nm hn _ (getD_plain raw hraw _ (by omega)), hd, stdData_mean]
+        rfl)
+    (by
+      by_cases h0 : done.length = 0
+      · rw [if_pos h0, List.eq_nil_of_length_eq_zero h0]; rfl
+      · have hd : (rows.getD (done.length - 1) BbRow.dflt).dv = stdData _ _ := (hQ (done.length - 1) (by omega)).1.1
+        rw [if_neg h0, hlast (by omega), bbOut_var nm hn _ (getD_plain raw hraw _ (by omega)), hd, stdData_var]
+        rfl)
+  rw [stdev_fact] at hcore
+  obtain ⟨fin, hX, hfin⟩ := rwCalc_inv _ _ _ done _ (by rw [hc.2]; rfl) _ _ hcore
+  have hsdOK := stdevOK_mk p defaultRound (by omega) (fieldAt fld raw) done.length
+  -- (2) the SMA helper
+  obtain ⟨hfM1, hpM1⟩ := hfM ((stdOwn p (fieldAt fld raw) done.length).roundBy defaultRound)
+    (stdData (runMean p (fieldAt fld raw) done.length) (runVar p (fieldAt fld raw) done.length))
+  obtain ⟨vm, hM, hsmOK⟩ := sma_core p hp (nm ++ "_SMA") input defaultRound (fun j => fld (raw.getD j default)) done
+    (bbC1 nm ((stdOwn p (fieldAt fld raw) done.length).roundBy defaultRound)
+      (stdData (runMean p (fieldAt fld raw) done.length) (runVar p (fieldAt fld raw) done.length))
+      (raw.getD done.length default))
+    hfM1 (hpM1 p (by omega))
+    (by
+      by_cases h0 : done.length = 0
+      · rw [if_pos h0, List.eq_nil_of_length_eq_zero h0]; rfl
+      · rw [if_neg h0, hlast (by omega), bbOut_sm nm hn _ (getD_plain raw hraw _ (by omega))]
+        exact (hQ (done.length - 1) (by omega)).2.1)
+  -- (3) the own reading
+  have hrM : ({ cs := done ++ [bbC2 nm ((stdOwn p (fieldAt fld raw) done.length).roundBy defaultRound)
+        (stdData (runMean p (fieldAt fld raw) done.length) (runVar p (fieldAt fld raw) done.length))
+        (vm.roundBy defaultRound) (raw.getD done.length default)], i := done.length, name := nm } : Ctx K).reading
+        (nm ++ "_SMA") = .ok (vm.roundBy defaultRound) := by
+    rw [Ctx.reading_cur done _ [] nm, bbC2_sm nm hn _ _ _ _ hc]
+  have hrS : ({ cs := done ++ [bbC2 nm ((stdOwn p (fieldAt fld raw) done.length).roundBy defaultRound)
+        (stdData (runMean p (fieldAt fld raw) done.length) (runVar p (fieldAt fld raw) done.length))
+        (vm.roundBy defaultRound) (raw.getD done.length default)], i := done.length, name := nm } : Ctx K).reading
+        (nm ++ "_STDEV") = .ok ((stdOwn p (fieldAt fld raw) done.length).roundBy defaultRound) := by
+    rw [Ctx.reading_cur done _ [] nm, bbC2_sd nm hn _ _ _ _ hc]
+  by_cases hj : done.length < p
+  · -- before both helpers have a value
+    have hsn : ((stdOwn p (fieldAt fld raw) done.length).roundBy defaultRound).isNone = true := by
+      have e : (stdOwn p (fieldAt fld raw) done.length).roundBy defaultRound = .none := hsdOK.2.1 hj
+      rw [e]; rfl
+    have hP := bbands_none _ (nm ++ "_SMA") (nm ++ "_STDEV") _ _ hrM hrS (Or.inr hsn)
+    refine ⟨_, bb_rowStep_ok nm n (p : Int) input (by omega) hn hin done _ _ _ vm _ fin hX hfin hM hP,
+      hsdOK, hsmOK, fun _ => rfl, fun h => by omega⟩
+  · obtain ⟨ys, hys', _, _⟩ := hsdOK.2.2 (by omega)
+    have hys : (stdOwn p (fieldAt fld raw) done.length).roundBy defaultRound = .flt ys := hys'
+    obtain ⟨ym, hym, _⟩ := hsmOK.2 (by omega)
+    have hP := bbands_def _ (nm ++ "_SMA") (nm ++ "_STDEV") (.flt ym) (.flt ys)
+      (hrM.trans (congrArg Except.ok hym)) (hrS.trans (congrArg Except.ok hys))
+    refine ⟨_, bb_rowStep_ok nm n (p : Int) input (by omega) hn hin done _ _ _ vm _ fin hX hfin hM hP,
+      hsdOK, hsmOK, fun h => by omega, fun _ => ⟨ym, ys, hym, hys, bbDict_round n ym ys⟩⟩
+
+/-- **BBANDS, whole series** (row-major run of `bbTree`), period `p ≥ 2`, input a candle field.  For
+EVERY raw list the run returns; candle `j` of the result is the raw candle `j` carrying the row
+`rows[j]` (STDEV helper reading + data entry and SMA helper reading in `.sub_indicators`, own dict in
+`.indicators`), and every row satisfies `BbOK` (hence `BbOK.bands`). -/
+theorem bb_series (p : Nat) (hp : 2 ≤ p) (nm input : String) (fld : Candle K → Num K) (n : Nat)
+    (hn : BbNames nm) (hin : NoDot input ∧ input ∈ Candle.attrNames)
+    (hattr : ∀ c : Candle K, c.attr input = some (.num (fld c)))
+    (raw : List (Candle K)) (hraw : ∀ c ∈ raw, Plain c) :
+    ∃ rows : List (BbRow K), rows.length = raw.length ∧
+      Gen.rowMajor (bbTree (F := K) nm n (p : Int) input (by omega) hn hin).S raw = .ok (decoBb nm raw rows) ∧
+      ∀ j, j < raw.length → BbOK p n (fieldAt fld raw) j (rows.getD j BbRow.dflt) :=
+  gen_series_induct _ (bbOut nm) BbRow.dflt raw _
+    (fun m hm rows hrows hQ => bb_step p hp nm input fld n hn hin hattr raw hraw m hm rows hrows hQ)
+
+/-! ### the same statement read off the candles -/
+
+/-- a stored own reading (the dict) against the textbook bands: the dict of `None`s where the
+series has no value; otherwise three floats, ordered, each within its budget -/
+def BbOwnOK (p n j : Nat) (o : Option (K × K × K)) (v : Val K) : Prop :=
+  match o with
+  | none => v = bbNoneDict
+  | some (L, M, U) => ∃ lo mid up : K, v = bbDict lo mid up ∧ lo ≤ mid ∧ mid ≤ up ∧
+      |mid - M| ≤ eps K n + ((j + 2 - p : Nat) : K) * eps K defaultRound ∧
+      |lo - L| ≤ eps K n + (((j + 2 - p : Nat) : K) + 2) * eps K defaultRound ∧
+      |up - U| ≤ eps K n + (((j + 2 - p : Nat) : K) + 2) * eps K defaultRound
+
+theorem bbDict_nested (lo mid up : K) :
+    (bbDict lo mid up).nested "BBL" = .flt lo ∧ (bbDict lo mid up).nested "BBM" = .flt mid ∧
+    (bbDict lo mid up).nested "BBU" = .flt up := by
+  refine ⟨?_, ?_, ?_⟩ <;> simp [bbDict, Val.nested, dlookup]
+
+/-- what `BbOK` says of the finished candle `j`: the own dict follows `bbSeries`, the STDEV helper's
+entries are those of a STDEV series rounded to 4 decimals (`SdCandleOK`), the SMA helper's reading
+is `SmaOK` -/
+def BbCandleOK (p n : Nat) (nm : String) (x : Nat → K) (j : Nat) (c : Candle K) : Prop :=
+  BbOwnOK p n j (bbSeries p x j) (readingByCandle c nm) ∧
+  SdCandleOK p defaultRound (nm ++ "_STDEV") x j c ∧
+  SmaOK p defaultRound x j (readingByCandle c (nm ++ "_SMA"))
+
+theorem bbCandleOK_of [NonnegSqrt K] (p n : Nat) (hp : 2 ≤ p) (nm : String) (hk : IsKey nm) (hn : BbNames nm)
+    (x : Nat → K) (j : Nat) (c : Candle K) (hc : Plain c) (r : BbRow K) (h : BbOK p n x j r) :
+    BbCandleOK p n nm x j (bbOut nm c r) := by
+  refine ⟨?_, ⟨?_, ?_, ?_, fun hj => ⟨runMean_eq_winMean p x j hj, runVar_eq_popVar p (by omega) x j hj⟩⟩, ?_⟩
+  · rw [bbOut_own nm hk]
+    unfold bbSeries
+    by_cases hj : j < p
+    · rw [if_pos hj]; exact h.2.2.1 hj
+    · rw [if_neg hj]; exact h.bands (by omega)
+  · rw [bbOut_sd nm hn _ hc]
+    unfold stdevSeries
+    by_cases hj : j < p
+    · rw [if_pos hj]; exact h.1.2.1 hj
+    · rw [if_neg hj]
+      obtain ⟨y, hy, he, hb⟩ := h.1.2.2 (by omega)
+      exact ⟨y, hy, hb, h.1.nonneg y hy⟩
+  · have hd : r.dv = stdData _ _ := h.1.1
+    rw [bbOut_mean nm hn _ hc, hd, stdData_mean]
+  · have hd : r.dv = stdData _ _ := h.1.1
+    rw [bbOut_var nm hn _ hc, hd, stdData_var]
+  · rw [bbOut_sm nm hn _ hc]; exact h.2.1
+
+theorem decoBb_getD (nm : String) (raw : List (Candle K)) (rows : List (BbRow K))
+    (hl : rows.length = raw.length) (j : Nat) (hj : j < raw.length) :
+    (decoBb nm raw rows).getD j default = bbOut nm (raw.getD j default) (rows.getD j BbRow.dflt) := by
+  rw [List.getD_eq_getElem?_getD, decoBb, decoWith_getElem? _ _ _ BbRow.dflt j hl hj]; rfl
+
+/-- **BBANDS, whole series, candle by candle.**  For every raw list the row-major run of `bbTree`
+returns a list of the raw candles' length whose candle `j` satisfies `BbCandleOK`: the own dict is
+`{BBL: None, BBM: None, BBU: None}` before index `p` and afterwards three ordered floats,
+middle within `ε_n + (j+2−p)·ε₄` of the SMA and outer bands within `ε_n + (j+4−p)·ε₄` of `SMA ∓ 2σ` of
+the last `p` inputs. -/
+theorem bb_series_candles [NonnegSqrt K] (p : Nat) (hp : 2 ≤ p) (nm input : String) (fld : Candle K → Num K)
+    (n : Nat) (hk : IsKey nm) (hn : BbNames nm) (hin : NoDot input ∧ input ∈ Candle.attrNames)
+    (hattr : ∀ c : Candle K, c.attr input = some (.num (fld c)))
+    (raw : List (Candle K)) (hraw : ∀ c ∈ raw, Plain c) :
+    ∃ out : List (Candle K), out.length = raw.length ∧
+      Gen.rowMajor (bbTree (F := K) nm n (p : Int) input (by omega) hn hin).S raw = .ok out ∧
+      ∀ j, j < raw.length → BbCandleOK p n nm (fieldAt fld raw) j (out.getD j default) := by
+  obtain ⟨rows, hl, hrun, hall⟩ := bb_series p hp nm input fld n hn hin hattr raw hraw
+  refine ⟨decoBb nm raw rows, decoWith_length _ _ _ hl, hrun, ?_⟩
+  intro j hj
+  rw [decoBb_getD nm raw rows hl j hj]
+  exact bbCandleOK_of p n hp nm hk hn _ j _ (getD_plain raw hraw j hj) _ (hall j hj)
+
+/-! ### through the engine -/
+
+/-- **… through the engine**: `calculate()` on the raw candles returns exactly the candles of `bb_series`. -/
+theorem bb_series_engine (p : Nat) (hp : 2 ≤ p) (nm input : String) (fld : Candle K → Num K) (n : Nat)
+    (hn : BbNames nm) (hin : NoDot input ∧ input ∈ Candle.attrNames)
+    (hattr : ∀ c : Candle K, c.attr input = some (.num (fld c)))
+    (raw : List (Candle K)) (hraw : ∀ c ∈ raw, Plain c) :
+    ∃ rows : List (BbRow K), rows.length = raw.length ∧
+      engineCalc (mkTop (.bbands (p : Int) input : Kind K) nm n) raw = .ok (decoBb nm raw rows) ∧
+      ∀ j, j < raw.length → BbOK p n (fieldAt fld raw) j (rows.getD j BbRow.dflt) := by
+  obtain ⟨rows, hl, hrun, hall⟩ := bb_series p hp nm input fld n hn hin hattr raw hraw
+  refine ⟨rows, hl, ?_, hall⟩
+  have h3 := ((bbTree (F := K) nm n (p : Int) input (by omega) hn hin).engine [] raw [] (decoBb nm raw rows) rfl
+    (by simp) hraw).2 (by simpa using hrun)
+  simp only [List.nil_append] at h3
+  exact h3
+
+/-- **… through the object**: the batch run returns exactly the candles of `bb_series`. -/
+theorem bb_series_batch (p : Nat) (hp : 2 ≤ p) (nm input : String) (fld : Candle K → Num K) (n : Nat)
+    (hn : BbNames nm) (hin : NoDot input ∧ input ∈ Candle.attrNames)
+    (hattr : ∀ c : Candle K, c.attr input = some (.num (fld c)))
+    (raw : List (Candle K)) (hraw : ∀ c ∈ raw, Plain c) :
+    ∃ rows : List (BbRow K), rows.length = raw.length ∧
+      candlesOf (runIndicator (mkTop (.bbands (p : Int) input : Kind K) nm n) {} raw []) = .ok (decoBb nm raw rows) ∧
+      ∀ j, j < raw.length → BbOK p n (fieldAt fld raw) j (rows.getD j BbRow.dflt) := by
+  obtain ⟨rows, hl, hrun, hall⟩ := bb_series p hp nm input fld n hn hin hattr raw hraw
+  exact ⟨rows, hl,
+    ((bbTree (F := K) nm n (p : Int) input (by omega) hn hin).batch_iff (MgrSpec.base K) raw hraw _).2 hrun, hall⟩
+
+/-- **whenever the batch run returns, its candles carry exactly those readings** (and it does
+return: `bb_series_batch`) -/
+theorem bb_batch_readings [NonnegSqrt K] (p : Nat) (hp : 2 ≤ p) (nm input : String) (fld : Candle K → Num K)
+    (n : Nat) (hk : IsKey nm) (hn : BbNames nm) (hin : NoDot input ∧ input ∈ Candle.attrNames)
+    (hattr : ∀ c : Candle K, c.attr input = some (.num (fld c)))
+    (raw : List (Candle K)) (hraw : ∀ c ∈ raw, Plain c) (out : List (Candle K))
+    (hout : candlesOf (runIndicator (mkTop (.bbands (p : Int) input : Kind K) nm n) {} raw []) = .ok out) :
+    out.length = raw.length ∧
+    ∀ j, j < raw.length → BbCandleOK p n nm (fieldAt fld raw) j (out.getD j default) := by
+  obtain ⟨out', h1, h2, h3⟩ := bb_series_candles p hp nm input fld n hk hn hin hattr raw hraw
+  have hr : Gen.rowMajor (bbTree (F := K) nm n (p : Int) input (by omega) hn hin).S raw = .ok out :=
+    ((bbTree (F := K) nm n (p : Int) input (by omega) hn hin).batch_iff (MgrSpec.base K) raw hraw out).1 hout
+  rw [h2] at hr
+  cases hr
+  exact ⟨h1, h3⟩
+
+/-- **… for every append schedule**: whenever a live history returns, its candles are those of
+`bb_series` over the whole stream. -/
+theorem bb_series_live (p : Nat) (hp : 2 ≤ p) (nm input : String) (fld : Candle K → Num K) (n : Nat)
+    (hn : BbNames nm) (hin : NoDot input ∧ input ∈ Candle.attrNames)
+    (hattr : ∀ c : Candle K, c.attr input = some (.num (fld c)))
+    (init : List (Candle K)) (chunks : List (List (Candle K)))
+    (hraw : ∀ c ∈ init ++ chunks.flatten, Plain c) (snap : List (Candle K))
+    (hsnap : candlesOf (runIndicator (mkTop (.bbands (p : Int) input : Kind K) nm n) {} init chunks) = .ok snap) :
+    ∃ rows : List (BbRow K), rows.length = (init ++ chunks.flatten).length ∧
+      snap = decoBb nm (init ++ chunks.flatten) rows ∧
+      ∀ j, j < (init ++ chunks.flatten).length →
+        BbOK p n (fieldAt fld (init ++ chunks.flatten)) j (rows.getD j BbRow.dflt) := by
+  obtain ⟨rows, hl, hrun, hall⟩ := bb_series p hp nm input fld n hn hin hattr _ hraw
+  have h := (bbTree (F := K) nm n (p : Int) input (by omega) hn hin).live_refines (MgrSpec.base K) init chunks hraw snap hsnap
+  have h' : Gen.rowMajor (bbTree (F := K) nm n (p : Int) input (by omega) hn hin).S (init ++ chunks.flatten) = .ok snap := h
+  rw [hrun] at h'
+  exact ⟨rows, hl, (Except.ok.inj h').symm, hall⟩
+
+/-! ### non-vacuity: the five demo candles over ℚ -/
+
+theorem bbNames_demo : BbNames "BB_3" :=
+  ⟨by decide, by decide, ⟨by decide, by decide, by decide⟩, by decide, by decide, by decide, by decide, by decide⟩
+
+example : ∃ rows : List (BbRow ℚ), rows.length = rsiDemoRaw.length ∧
+    Gen.rowMajor (bbTree (F := ℚ) "BB_3" 4 ((3 : Nat) : Int) "close" (by omega) bbNames_demo ⟨noDot_close, by decide⟩).S
+      rsiDemoRaw = .ok (decoBb "BB_3" rsiDemoRaw rows) ∧
+    ∀ j, j < rsiDemoRaw.length → BbOK 3 4 (fieldAt (·.c) rsiDemoRaw) j (rows.getD j BbRow.dflt) :=
+  bb_series 3 (by norm_num) "BB_3" "close" (·.c) 4 bbNames_demo ⟨noDot_close, by decide⟩
+    (fun _ => rfl) rsiDemoRaw rsiDemoRaw_plain
+
+/-- the batch run on the demo candles returns, and its candles are as stated -/
+example : ∃ out : List (Candle ℚ),
+    candlesOf (runIndicator (mkTop (.bbands ((3 : Nat) : Int) "close" : Kind ℚ) "BB_3" 4) {} rsiDemoRaw []) = .ok out ∧
+    out.length = rsiDemoRaw.length ∧
+    ∀ j, j < rsiDemoRaw.length → BbCandleOK 3 4 "BB_3" (fieldAt (·.c) rsiDemoRaw) j (out.getD j default) := by
+  obtain ⟨rows, _, h2, _⟩ := bb_series_batch 3 (by norm_num) "BB_3" "close" (·.c) 4 bbNames_demo
+    ⟨noDot_close, by decide⟩ (fun _ => rfl) rsiDemoRaw rsiDemoRaw_plain
+  exact ⟨_, h2, bb_batch_readings 3 (by norm_num) "BB_3" "close" (·.c) 4 (by decide) bbNames_demo
+    ⟨noDot_close, by decide⟩ (fun _ => rfl) rsiDemoRaw rsiDemoRaw_plain _ h2⟩
+
+/-- the textbook series on the demo candles: no bands on candles 0–2 (although the SMA helper has a
+value on candle 2); the SMA of candle 4 is `44/3` -/
+example : bbSeries 3 (fieldAt (·.c) rsiDemoRaw) 2 = none := by decide
+example : winMean (fieldAt (·.c) rsiDemoRaw) 3 4 = 44 / 3 := by
+  norm_num [winMean, rsum, fieldAt, rsiDemoRaw, Demo.mk, List.range_succ]
+
+/-- concretely: the batch run stores the dict of `None`s on candle 2 and, on candle 4, three ordered
+floats whose middle one is within `ε₄ + 3·ε₄` of the SMA `44/3` -/
+example : ∃ out : List (Candle ℚ),
+    candlesOf (runIndicator (mkTop (.bbands ((3 : Nat) : Int) "close" : Kind ℚ) "BB_3" 4) {} rsiDemoRaw []) = .ok out ∧
+    readingByCandle (out.getD 2 default) "BB_3" = bbNoneDict ∧
+    ∃ lo mid up : ℚ, readingByCandle (out.getD 4 default) "BB_3" = bbDict lo mid up ∧ lo ≤ mid ∧ mid ≤ up ∧
+      |mid - 44 / 3| ≤ eps ℚ 4 + 3 * eps ℚ 4 := by
+  obtain ⟨rows, _, h2, _⟩ := bb_series_batch 3 (by norm_num) "BB_3" "close" (·.c) 4 bbNames_demo
+    ⟨noDot_close, by decide⟩ (fun _ => rfl) rsiDemoRaw rsiDemoRaw_plain
+  obtain ⟨_, h3⟩ := bb_batch_readings 3 (by norm_num) "BB_3" "close" (·.c) 4 (by decide) bbNames_demo
+    ⟨noDot_close, by decide⟩ (fun _ => rfl) rsiDemoRaw rsiDemoRaw_plain _ h2
+  refine ⟨_, h2, ?_, ?_⟩
+  · have h := (h3 2 (by decide)).1
+    have e : bbSeries 3 (fieldAt (·.c) rsiDemoRaw) 2 = none := by decide
+    rw [e] at h
+    exact h
+  · have h := (h3 4 (by decide)).1
+    have e : bbSeries 3 (fieldAt (·.c) rsiDemoRaw) 4
+        = some (winMean (fieldAt (·.c) rsiDemoRaw) 3 4 - 2 * sigmaExact (fieldAt (·.c) rsiDemoRaw) 3 4,
+            winMean (fieldAt (·.c) rsiDemoRaw) 3 4,
+            winMean (fieldAt (·.c) rsiDemoRaw) 3 4 + 2 * sigmaExact (fieldAt (·.c) rsiDemoRaw) 3 4) := by
+      unfold bbSeries; rw [if_neg (by decide)]
+    rw [e] at h
+    obtain ⟨lo, mid, up, hv, h1, h2', hm, _, _⟩ := h
+    have ew : winMean (fieldAt (·.c) rsiDemoRaw) 3 4 = 44 / 3 := by
+      norm_num [winMean, rsum, fieldAt, rsiDemoRaw, Demo.mk, List.range_succ]
+    have e3 : ((4 + 2 - 3 : Nat) : ℚ) = 3 := by norm_num
+    rw [ew, e3] at hm
+    exact ⟨lo, mid, up, hv, h1, h2', hm⟩
+
+#print axioms bb_series
+#print axioms BbOK.bands
+#print axioms bb_series_candles
+#print axioms bb_series_engine
+#print axioms bb_series_batch
+#print axioms bb_batch_readings
+#print axioms bb_series_live
 
 end Numeric
 end Hex
